@@ -176,6 +176,8 @@ def run(ctx):
             for eol in ("\n", "\r\n"):
                 for fnl in (True, False):
                     style = {"eol": eol, "final_newline": fnl, "tags": False, "wrap": gen.choice([1, 2, 3, 5]) if fname == "fastaw" else None}
+                    if fname == "bed6":
+                        style.update(score_mode=gen.choice(["int", "mixed"]), score_small=gen.random() < 0.5)
                     small.append((fname, n, style, gen.randrange(2 ** 30)))
     for fi, (fname, n, style, s) in enumerate(small):
         fc = make_file(fname, random.Random(s), n, "tiny", style)
@@ -195,6 +197,8 @@ def run(ctx):
         fname = rng.choice(FORMATS_C01)
         n = rng.randint(5, ctx.pick(25, 120))
         style = {"eol": rng.choice(["\n", "\n", "\r\n"]), "final_newline": rng.random() < 0.5, "wrap": rng.choice([None, 3, 7, 60]) if fname == "fastaw" else None}
+        if fname == "bed6":
+            style.update(score_mode=rng.choice(["int", "mixed"]), score_small=rng.random() < 0.5)
         fc = make_file(fname, random.Random(rng.randrange(2 ** 30)), n, rng.choice(["tiny", "normal", "wide"]), style)
         size = len(fc["data"])
         D = size - len(fc["header"])
